@@ -73,6 +73,7 @@ type Flow struct {
 
 	memo    map[string][]string
 	Visited map[*ssa.Function]bool
+	Seen    map[string]bool // every rule state that occurred at some program point
 	Steps   int
 	Err     error
 }
@@ -108,6 +109,7 @@ func (f *Flow) Run(fn *ssa.Function, in []string) []string {
 	if f.memo == nil {
 		f.memo = map[string][]string{}
 		f.Visited = map[*ssa.Function]bool{}
+		f.Seen = map[string]bool{}
 	}
 	root := &Frame{Fn: fn, key: f.P.FnKey(fn)}
 	return f.run(root, uniq(in))
@@ -252,6 +254,10 @@ func (f *Flow) runOne(fr *Frame, st0 string) []string {
 				break
 			}
 			cur = uniq(next)
+			for _, es := range cur {
+				st, _ := splitState(es)
+				f.Seen[st] = true
+			}
 			if len(cur) == 0 {
 				break
 			}
@@ -272,6 +278,7 @@ func (f *Flow) runOne(fr *Frame, st0 string) []string {
 					ne := o + deferSep + ds
 					if !seen[succ.Index][ne] {
 						seen[succ.Index][ne] = true
+						f.Seen[o] = true
 						pending[succ.Index] = append(pending[succ.Index], ne)
 						work = append(work, succ.Index)
 					}
@@ -406,3 +413,5 @@ func (p *Prog) AllFuncSet() map[*ssa.Function]bool {
 	}
 	return m
 }
+
+func (f *Flow) sawState(s string) bool { return f.Seen[s] }
